@@ -89,6 +89,8 @@ static std::string with_idx(const std::string& kind, const std::vector<ll>& v, F
         if (v == std::vector<ll>{3, 2}) return f(nmtools_tuple{3_ct, 2_ct});
         if (v == std::vector<ll>{2, 3, 4}) return f(nmtools_tuple{2_ct, 3_ct, 4_ct});
         if (v == std::vector<ll>{6}) return f(nmtools_tuple{6_ct});
+        if (v == std::vector<ll>{4, 3}) return f(nmtools_tuple{4_ct, 3_ct});
+        if (v == std::vector<ll>{2, 9, 4}) return f(nmtools_tuple{2_ct, 9_ct, 4_ct});
         return "unsupported";
     }
 #endif
